@@ -20,9 +20,13 @@ def main():
         return rc
     tdir = os.path.join(os.environ.get("VERIF_SCRATCH", "/var/tmp/graaf-verif"), "setup-target")
     # differential self-test of the models against real std (native)
-    rc = sh(["cargo", "test", "--features", "vecmodel", "--target-dir", tdir, "--quiet"], cwd=os.path.join(HERE, "vstd"))
+    rc = sh(["cargo", "test", "--features", "vecmodel", "--target-dir", tdir, "--quiet", "--", "--test-threads=1"],
+            cwd=os.path.join(HERE, "vstd"))
     subprocess.run(["rm", "-rf", tdir])
-    return rc
+    if rc:
+        return rc
+    # graaf's own unit tests against the transformed crate (model containers)
+    return sh(["python3", "validate_models.py"])
 
 
 if __name__ == "__main__":
